@@ -20,6 +20,7 @@ import pipeline as P
 WRAPPER = os.path.join(VERIF, "harness", "c20_wrapper.py")
 KEY_INPLACE = "C20:cache-rewritten-in-place"
 KEY_DBPATH = "C20:db2gtf-hit-ignores-db-path"
+KEY_REFIDX = "C20:shared-reference-index"
 
 # model programs, mirrored from coq/Cache.v (the mirror only decides which steps are silent in the real process; the event trace of
 # every replay is compared with the model's trace inside Coq, so a wrong mirror shows up as a mismatch)
@@ -647,12 +648,15 @@ def free_running(ctx, inplace, quick):
                 ctx.broken("free-running:standalone", "stand-alone run failed (rc %d): %s" % (rc, log[-600:])); return
             ref[k] = out_digest(od, "S")
         n = 6 if quick else 16
-        rounds = [("new HOME, same annotation", ["A"] * n), ("used HOME (cache hits expected), same annotation", ["A"] * n), ("new HOME, two annotations", ["A", "B"] * (n // 2)),
+        rounds = [("new HOME, same annotation, reference without index files yet", ["A"] * n), ("new HOME, same annotation", ["A"] * n), ("used HOME (cache hits expected), same annotation", ["A"] * n), ("new HOME, two annotations", ["A", "B"] * (n // 2)),
                   ("used HOME, two annotations, every other run with --clean_start", ["B", "A"] * (n // 2))]
         if not quick: rounds = rounds + [("new HOME, same annotation (repeat %d)" % k, ["A"] * n) for k in range(3)]
         home = None; nbad = 0; hits = 0
         for rno, (rname, anns) in enumerate(rounds):
             if rname.startswith("new HOME"): home = os.path.join(root, "home_shared_%d" % rno)
+            if "without index files" in rname:
+                for ext in (".fai", ".gzi"):
+                    if os.path.exists(data["fasta"] + ext): os.remove(data["fasta"] + ext)
             def one(i):
                 od = os.path.join(root, "r%d_%d" % (rno, i))
                 extra = ["--clean_start"] if ("clean_start" in rname and i % 2) else []
@@ -667,6 +671,7 @@ def free_running(ctx, inplace, quick):
                     nbad += 1
                     diff = [] if dg is None else [f for f in set(dg) | set(ref[anns[i]]) if dg.get(f) != ref[anns[i]].get(f)]
                     key = KEY_INPLACE if (inplace and "JSONDecodeError" in log) else None
+                    if rc == 0 and dg is not None and len(dg.get("S.read_assignments.tsv.gz", [])) <= 3 and "without index files" in rname: key = KEY_REFIDX
                     ctx.violation(key, "a run started together with %d others under one HOME %s" % (len(anns) - 1, "failed (exit code %d)" % rc if rc != 0 else "produced other results than alone"),
                                   {"round": rname, "run": i, "annotation": anns[i], "exit_code": rc, "differing_files": diff, "log_tail": log[-1200:]})
             cfg = os.path.join(home, ".config", "IsoQuant", "db_config.json")
@@ -676,6 +681,42 @@ def free_running(ctx, inplace, quick):
         ctx.notes.append("free-running: %d rounds of %d simultaneous isoquant.py runs under one HOME, %d reused a cached database, %d differed from the stand-alone run" % (len(rounds), n, hits, nbad))
         ctx.rule("free running: rounds of %d simultaneous real isoquant.py runs (bundled chr9 data, separate output folders, one HOME; new / used HOME, one / two annotations, --clean_start mixed in); every "
                  "run must exit 0 and every result file must equal that of a stand-alone run with a private HOME (command-line header line ignored); the cache file must parse after each round" % n)
+    finally:
+        shutil.rmtree(root, ignore_errors=True)
+
+
+def reference_index_window(ctx):
+    """Runs that share a reference FASTA share the index files pyfaidx writes next to it (args.fai_file_name = reference + '.fai', plus '.gzi' for a BGZF
+       reference).  pyfaidx rewrites the .fai in place (open 'w', then copy) whenever it finds the .gzi missing, so with three runs starting together on a
+       reference that has no index yet:  A writes .fai, B finds no .gzi and decides to rebuild, A writes .gzi, B truncates .fai, C starts: .gzi present,
+       .fai present but empty -> C loads a reference with no sequences.  The state C meets is set up here (real pyfaidx files, the .fai emptied) and the
+       real pipeline is run on it."""
+    root = P.scratch("iqv_c20i_")
+    try:
+        data = P.bundled(os.path.join(root, "data"))
+        base = ["--bam", data["bam"], "--reference", data["fasta"], "--genedb", data["gtf"], "--data_type", "nanopore", "-p", "S", "--threads", "1", "--complete_genedb"]
+        rc, log = P.run_isoquant(os.path.join(root, "alone"), base); ctx.cov["pipeline_runs"] += 1          # builds .fai and .gzi
+        if rc != 0:
+            ctx.broken("reference-index:standalone", "stand-alone run failed: %s" % log[-500:]); return
+        ref = out_digest(os.path.join(root, "alone"), "S")
+        fai = data["fasta"] + ".fai"
+        if not (os.path.exists(fai) and os.path.exists(data["fasta"] + ".gzi")):
+            ctx.notes.append("reference-index: the run left no .fai/.gzi next to the reference (%s): window not applicable" % sorted(os.listdir(os.path.dirname(fai)))); return
+        good = open(fai).read()
+        open(fai, "w").close()                                                                           # B has opened it with 'w'
+        rc, log = P.run_isoquant(os.path.join(root, "third"), base); ctx.cov["pipeline_runs"] += 1
+        dg = out_digest(os.path.join(root, "third"), "S") if rc == 0 else None
+        ctx.count(evaluations=1, nontrivial=1, traces=1)
+        if rc == 0 and dg != ref:
+            n = len(dg.get("S.read_assignments.tsv.gz", []))
+            ctx.violation(KEY_REFIDX if n <= 3 else None, "a run that starts while another run rewrites the reference's .fai index exits 0 with results computed on an empty reference",
+                          {"state": "reference.fa.gz.gzi present, reference.fa.gz.fai present and empty (a concurrent pyfaidx has opened it for writing)", "exit_code": rc,
+                           "read_assignment_lines": n, "stand_alone_read_assignment_lines": len(ref.get("S.read_assignments.tsv.gz", [])),
+                           "differing_files": sorted(f for f in set(dg) | set(ref) if dg.get(f) != ref.get(f))})
+        elif rc != 0:
+            ctx.violation(KEY_REFIDX, "a run that starts while another run rewrites the reference's .fai index fails (exit code %d)" % rc,
+                          {"state": "reference.fa.gz.gzi present, reference.fa.gz.fai present and empty (a concurrent pyfaidx has opened it for writing)", "exit_code": rc, "log_tail": log[-800:]})
+        with open(fai, "w") as f: f.write(good)
     finally:
         shutil.rmtree(root, ignore_errors=True)
 
@@ -694,8 +735,11 @@ def run(ctx):
         corr_predicates(ctx, quick)
         corr_replays(ctx, V, pool, quick)
         free_running(ctx, not all(V.values()), quick)
+        reference_index_window(ctx)
     finally:
         shutil.rmtree(pool, ignore_errors=True)
+    ctx.rule("shared reference index: the state a third run meets while a second one rewrites <reference>.fai (pyfaidx: .gzi present, .fai truncated) is set up with real pyfaidx files and the real "
+             "pipeline is run on it; it must give the results of a stand-alone run")
     ctx.assume += ["os.replace is atomic and a reader that has opened the old file keeps reading it (POSIX rename)",
                    "one json.dump of a cache dictionary reaches the file as one write (the dictionaries are far below the 8 KiB buffer); a partially flushed text is modelled as 'unparseable' only",
                    "a file's modification time identifies its version: every write stamps a time never recorded before (clock in the model); files rewritten within one timestamp granule are outside the model",
